@@ -450,7 +450,12 @@ var pureExoticOnce sync.Once
 
 // a Map holding the Go value types the API accepts besides the JSON-shaped ones (what a caller builds by hand)
 func exoticMap() mxj.Map {
-	return mxj.Map{"doc": map[string]interface{}{
+	// a []byte value with spare capacity behind it (what bytes.Buffer, io.ReadAll or append hand out)
+	bs := append(make([]byte, 0, 64), "a&b<c"...)
+	// a sequence-shaped sub-document as it looks after a JSON round trip: float64 sequence numbers, two attributes, two children
+	sq := func(t string, n float64) map[string]interface{} { return map[string]interface{}{"#text": t, "#seq": n} }
+	return mxj.Map{"sq": map[string]interface{}{"r": map[string]interface{}{"#attr": map[string]interface{}{"x": sq("1", 0), "y": sq("2", 1)}, "b": sq("1", 0), "c": sq("2", 1)}},
+		"doc": map[string]interface{}{"by": bs,
 		"-id": 7, "i64": int64(-2), "u64": uint64(3), "n": json.Number("1.50"), "f32like": 2.5,
 		"ss": []string{"a", "b<"}, "lm": []map[string]interface{}{{"k": 1}, {"k": "v", "-a": true}},
 		"m":     mxj.Map{"x": []interface{}{1, "two", nil, map[string]interface{}{"#text": "t", "-q": "r"}}},
@@ -633,6 +638,28 @@ func pureOn(mv mxj.Map, a *Acc, l interface{}, jsonShaped bool) {
 		ms.XmlIndent("", " ")
 		_ = ms.StringIndent()
 	})
+	if sq, isMap := mv["sq"].(map[string]interface{}); isMap {
+		ok = ok && check("MapSeq encoders on a sequence-shaped Map", func() {
+			ss := mxj.MapSeq(sq)
+			ss.Xml()
+			ss.XmlIndent("", " ")
+			var w bytes.Buffer
+			ss.XmlWriter(&w)
+		})
+	}
+	if !jsonShaped {
+		// the XML encoders once more with encoder-side escaping on (values that need escaping: the escaped form is a NEW value)
+		ok = ok && check("Xml under XMLEscapeChars(true)", func() {
+			mxj.XMLEscapeChars(true)
+			defer mxj.XMLEscapeChars(false)
+			mv.Xml()
+			mv.XmlIndent("", " ")
+			mxj.AnyXml(map[string]interface{}(mv))
+			if sq, isMap := mv["sq"].(map[string]interface{}); isMap {
+				mxj.MapSeq(sq).Xml()
+			}
+		})
+	}
 	if !ok {
 		return
 	}
